@@ -25,7 +25,7 @@ RULE = ("layouts built inside a fresh per-case sandbox: inputs {directory tree o
         "(file input containing a workspace, absent directory that must hold an input or be a symlink target; the "
         "flag-less mode is paired with the first sub-command only) are not in the product. Each case = one CLI subprocess (cwd, HOME, TMPDIR in the sandbox) with snapshots "
         "(path, type, size, sha256, mode, link target) of the whole sandbox before and after. Quick: greedy all-pairs "
-        "covering array over the 6 dimensions (order varies with the seed) + 48 further -f / -f -q cases in hashed order; "
+        "covering array over the 6 dimensions (order varies with the seed) + 38 further -f / -f -q cases in hashed order; "
         "thorough: the full product in hashed order (stopped, and then not reported exhaustive, if a 15 min budget is exceeded). Non-trivial = anything but {disjoint, not pre-existing, absolute custom path or no option}, and "
         "not an unforced non-incremental run on an absent workspace (lian refuses those before doing anything); "
         "cases are distinct by construction.")
@@ -224,7 +224,7 @@ def main(tier, seed, t0):
         cases = all_cases()
         replays = [common.load_replay(p)["case"] for p in common.replay_files(ID)]
         if tier == "quick":
-            chosen, n_array, total_pairs = covering_array(cases, seed, extra=48)
+            chosen, n_array, total_pairs = covering_array(cases, seed, extra=38)
             cov = {"product_size": len(cases), "covering_array_cases": n_array, "value_pairs_covered": total_pairs,
                    "extra_hashed_cases": len(chosen) - n_array}
         else:
